@@ -139,4 +139,38 @@ def formatHex (size : Nat) (v d : Plane) : String :=
     let n := (List.range 4).foldl (fun a j => a * 2 + (if bit v (top - j) then 1 else 0)) 0
     if allDef then hexChar n else 'X')
 
+/-! ## round trip at the level of the grammar -/
+
+def fmtBit : Option Bool → Char
+  | none => 'X' | some true => '1' | some false => '0'
+
+/-- what `operator<<` prints for a vector given as a list of four-state bits (LSB first): MSB first over `0 1 X` -/
+def formatBits (bits : List (Option Bool)) : List Char := bits.reverse.map fmtBit
+
+theorem digitBits_fmtBit (b : Option Bool) : digitBits 1 (fmtBit b) = [b] := by
+  cases b with
+  | none => decide
+  | some v => cases v <;> decide
+
+/-- **Round trip at the level of the grammar**: the binary text printed for a four-state vector denotes, as a `b` literal,
+    exactly that vector (any length, any mix of 0/1/undefined). -/
+theorem literalBits_formatBits (bits : List (Option Bool)) : literalBits 1 (formatBits bits) = bits := by
+  unfold literalBits formatBits
+  rw [← List.map_reverse, List.reverse_reverse, List.map_map]
+  induction bits with
+  | nil => rfl
+  | cons b bs ih =>
+    simp only [List.map_cons, List.flatten_cons, Function.comp, digitBits_fmtBit, ih]
+    rfl
+
+theorem formatBits_digitOk (bits : List (Option Bool)) : (formatBits bits).all (digitOk 1) = true := by
+  unfold formatBits
+  rw [List.all_eq_true]
+  intro c hc
+  obtain ⟨b, _, rfl⟩ := List.mem_map.mp hc
+  cases b with
+  | none => decide
+  | some v => cases v <;> decide
+
+
 end Gatery.C18
